@@ -93,6 +93,38 @@ def _ending_chain(pl, root="CommandPipeline.end", limit=5):
     return chain
 
 
+def _ending_anchor(n):
+    """the three things R4 speaks about: the close of the last stage, the ended flag, the run of the last stage"""
+    if isinstance(n, ast.Call) and call_name(n) in ("self._close_proc", "self.tee_stdout"):
+        return True
+    return isinstance(n, ast.Assign) and any(unparse(t) == "self.ended" for t in n.targets)
+
+
+def _not_on_the_way(pl, cls):
+    """Names the helper-transparent view of the ending step leaves as plain calls: the close itself (its inside is
+    R3's business) and every callable of the module that does not lead to one of R4's anchors.  Exceptional exits are
+    modelled where the *function under analysis* makes them observable (DESIGN Appendix A); a helper that is expanded
+    only because it is called, with a try statement of its own, would add exits the convention does not speak about."""
+    methods = {q.split(".", 1)[1]: fn for q, fn in pl.functions() if q.startswith(cls + ".") and q.count(".") == 1}
+    on_way = {m for m, fn in methods.items() if any(_ending_anchor(n) for n in walk_local(fn))}
+    grew = True
+    while grew:
+        grew = False
+        for m, fn in methods.items():
+            if m not in on_way and any((call_name(c) or "") in {f"self.{h}" for h in on_way} for c in calls_in(fn)):
+                on_way.add(m)
+                grew = True
+    on_way -= {"_close_proc", "tee_stdout"}
+    called = set()
+    for _, fn in pl.functions():
+        for c in calls_in(fn):
+            if isinstance(c.func, ast.Name):
+                called.add(c.func.id)
+            elif isinstance(c.func, ast.Attribute):
+                called.add(c.func.attr)
+    return tuple(sorted(called - on_way))
+
+
 def check(ctx):
     ctx.not_decided += [
         "actual numbers of fds / threads / children after a command (run-time state)",
@@ -259,7 +291,7 @@ def check(ctx):
     # called, and whether the step was inlined into end() or split into several helpers.  The only way out that need
     # not close is the one taken because the pipeline had already been ended when the function was entered.
     end_chain = _ending_chain(pl)
-    EXPAND_SKIP = ("_return_terminal", "tee_stdout", "print_exception")
+    EXPAND_SKIP = _not_on_the_way(pl, "CommandPipeline")
     verdicts = {"_close_proc()": [], "ended = True": []}
     for q_ in end_chain:
         en = flat(ctx, pl.func(q_), depth=3, skip=EXPAND_SKIP)
